@@ -50,6 +50,15 @@ impl SigV4Authenticator {
         && self.session_token == (if b.session_token is Some { b.session_token->Some_0 } else { None::<String> })
     }
 
+    /// what derive_builder's build() means for the abstract views (exported: the field accessors are closed outside this module)
+    pub proof fn lemma_built_from(&self, b: SigV4AuthenticatorBuilder)
+        requires self.built_from(b)
+        ensures
+            self.cred() == str_bytes(b.credential->Some_0@), self.sig() == str_bytes(b.signature->Some_0@),
+            self.ts() == b.request_timestamp->Some_0.ns, self.creq_hash() == b.canonical_request_sha256->Some_0@,
+            self.token() == (if b.session_token is Some { b.session_token->Some_0 } else { None::<String> }),
+    {}
+
 //@ fn auth.rs impl SigV4Authenticator :: builder
 //@ props C08
 //@ ret r
